@@ -2416,3 +2416,233 @@ def rule_T20(ctx):
         else:
             r.neg_control(f["name"], verdict[f["path"]])
     return r
+
+
+# ---------------------------------------------------------------------------------------------------------------------
+# G8  a concatenation is flat ONE level deep: its walk re-enters for nested concatenations only.  The items of a list that is
+#     part of a concatenation are its items; a list that is an ITEM of such a list is a single value.  In a work-list walk whose
+#     dispatch has a Concatenation arm that queues the two operands, no other arm may queue onto the same work list.
+def g8_sites(f):
+    out = []
+    for lp in walk(f["hir"]):
+        if lp.get("k") != "Loop":
+            continue
+        for m in walk(lp):
+            if m.get("k") != "Match" or m.get("src") not in (None, "Normal"):
+                continue
+            arms = []
+            for arm in m["arms"]:
+                names = set()
+                for alt in hirq.norm_pat(arm["pat"]):
+                    if alt[0] == "V" and alt[1]:
+                        names.add(last(alt[1]))
+                    elif alt[0] == "T":
+                        for p_ in alt[1]:
+                            if p_[0] == "V" and p_[1]:
+                                names.add(last(p_[1]))
+                arms.append((names, arm))
+            conc = [a for ns, a in arms if "Concatenation" in ns]
+            if not conc:
+                continue
+            def queues(body):
+                qs = set()
+                for n in walk(body):
+                    if n.get("k") == "MethodCall" and n.get("m") in ("push", "extend", "push_back", "append", "extend_from_slice") and "Vec" in (n.get("recv_ty") or ""):
+                        l = hirq.local_of(n["recv"])
+                        if l is not None:
+                            qs.add(("vec", l))
+                    if n.get("k") == "MethodCall" and n.get("m") == "push_register":
+                        qs.add(("registers", 0))
+                return qs
+            work = set()
+            for a in conc:
+                work |= queues(a["body"])
+            # the work list is one that the loop also pops
+            popped = set()
+            for n in walk(lp):
+                if n.get("k") == "MethodCall" and n.get("m") in ("pop", "pop_front") and "Vec" in (n.get("recv_ty") or ""):
+                    l = hirq.local_of(n["recv"])
+                    if l is not None:
+                        popped.add(("vec", l))
+                if n.get("k") == "MethodCall" and n.get("m") == "pop_register":
+                    popped.add(("registers", 0))
+            work &= popped
+            if not work:
+                continue
+            for ns, a in arms:
+                if "Concatenation" in ns:
+                    continue
+                q = queues(a["body"]) & work
+                out.append((loc(a["pat"]), sorted(ns), bool(q)))
+    return out
+
+
+def rule_G8(ctx):
+    F = ctx.F
+    r = RuleResult("G8", "a concatenation is flat one level deep: in a work-list walk over a concatenation only the Concatenation arm queues onto the work list; the items of a list are taken as they are, a list among them stays one value")
+    n = 0
+    for f in sorted(F.fns.values(), key=lambda f: f["path"]):
+        if f["crate"] not in ("garnish_lang_runtime", "garnish_lang_traits", "garnish_lang_simple_data") or f["kind"] == "Closure":
+            continue
+        sites = g8_sites(f)
+        if sites:
+            n += 1
+            r.examine((f["path"],), True, {"fn": f["path"], "other_arms": len(sites), "arms_queueing_onto_the_work_list": [ns for _w, ns, q in sites if q]})
+        seen = set()
+        for where, ns, q in sites:
+            key = "/".join(ns) or "catch-all"
+            if q and key not in seen:
+                seen.add(key)
+                r.finding(f["path"], "walk-re-entered-for:%s" % key, where, "the %s arm of the concatenation walk in %s queues onto the work list (at %s): the walk then takes apart whatever those values are - a list that is an ITEM of a list inside the concatenation is flattened too, so ((1, (2, 3)) <> 4) compares equal to (1, 2, 3, 4)" % (key, last(f["path"]), where))
+    r.floor("work-list walks over concatenations", n, 2)
+    for f in F.fns_in("gfixture::round3::g8::"):
+        if f["kind"] == "Closure" or not f.get("name", "").startswith(("ctl_", "ok_")):
+            continue
+        sites = g8_sites(f)
+        bad = any(q for _w, _ns, q in sites)
+        if f["name"].startswith("ctl_"):
+            r.control(f["name"], bad)
+        else:
+            r.neg_control(f["name"], bool(sites) and not bad)
+    return r
+
+
+# ---------------------------------------------------------------------------------------------------------------------
+# D13  the two data factories agree.  SimpleDataFactory and BasicDataFactory implement one interface over the same number /
+#      text types; a literal must denote the same value on both data implementations.  Per method, the value each returns
+#      comes from the same sources (the shared parser it delegates to, its parameter, ...) in both.
+_D13_NOISE = {"new", "must_use", "from", "into", "to_string", "clone", "to_owned"}
+
+
+def rule_D13(ctx):
+    F = ctx.F
+    r = RuleResult("D13", "the two data factories agree: per GarnishDataFactory method, SimpleDataFactory and BasicDataFactory derive what they return from the same sources (the same shared parser, the parameter)")
+    by = {}
+    for f in F.fns.values():
+        ti = f.get("trait_item") or ""
+        if "GarnishDataFactory::" in ti and f["crate"] == "garnish_lang_simple_data" and f["kind"] != "Closure":
+            ks = frozenset((k, w) for k, w, _l in returned_address_origins(F, f) if not (k == "call" and w in _D13_NOISE))
+            by.setdefault(last(ti), []).append((f, ks))
+    n = 0
+    for m, impls in sorted(by.items()):
+        if len(impls) < 2:
+            continue
+        n += 1
+        sets = set(ks for _f, ks in impls)
+        r.examine((m,), True, {"method": m, "implementations": len(impls), "agree": len(sets) == 1})
+        if len(sets) > 1:
+            desc = "; ".join("%s: %s" % (last((f.get("impl_self") or "?").split("<")[0]), sorted("%s %s" % (k, w) for k, w in ks)) for f, ks in sorted(impls, key=lambda x: x[0]["path"]))
+            odd = sorted(impls, key=lambda x: x[0]["path"])[0][0]
+            r.finding(odd["path"], "factories-disagree:%s" % m, loc(odd["hir"]), "the data factories derive the result of `%s` from different sources (%s): the same literal then denotes different values on the two data implementations (a fast path in one of them that skips the shared parser's radix / separator handling)" % (m, desc))
+    r.floor("GarnishDataFactory methods implemented by both factories", n, 12)
+    return r
+
+
+# ---------------------------------------------------------------------------------------------------------------------
+# A15  a sub-expression step always hands its value on.  UpdateValue replaces the current input value (`$`) with the value of the
+#      step that just ended - whatever that value is (unit included): identifiers of the next step are looked up in it first.
+#      On every path of the handler that returns Ok, the cell obtained from get_current_value_mut is stored to.
+def _always_err(F, d):
+    """a workspace function all of whose returns are Err(..) (an error constructor like state_error)"""
+    g = F.fns.get(d) if F is not None and d else None
+    if g is None:
+        return False
+    vals = [s["rv"].get("variant") for b in g["mir"]["blocks"] if not b["cleanup"] for s in b["stmts"]
+            if s["k"] == "Assign" and s["place"]["l"] == 0 and not s["place"]["p"] and s["rv"]["k"] == "Aggregate"]
+    calls0 = [b for b in g["mir"]["blocks"] if not b["cleanup"] and b["term"]["k"] == "Call" and b["term"].get("dest", {}).get("l") == 0]
+    return bool(vals) and all(v == "Err" for v in vals) and not calls0
+
+
+def a15_analyse(f, F=None):
+    mir = f["mir"]
+    bl = mir["blocks"]
+    asg = mirq.assignments(mir)
+    def store_block(bi, b):
+        for s in b["stmts"]:
+            if s["k"] == "Assign" and s["place"]["p"] and s["place"]["p"][0] == "*":
+                for og in mirq.origins(mir, s["place"]["l"], asg):
+                    if og[1] == "term" and last(og[2].get("def") or "") == "get_current_value_mut":
+                        return True
+                    if og[1] != "term" and og[2].get("k") == "Use":
+                        pl = mirq.op_place(og[2]["op"])
+                        if pl is not None:
+                            for o2 in mirq.origins(mir, pl["l"], asg):
+                                if o2[1] == "term" and last(o2[2].get("def") or "") == "get_current_value_mut":
+                                    return True
+        return False
+    def ok_block(bi, b):
+        return any(s["k"] == "Assign" and s["place"]["l"] == 0 and not s["place"]["p"] and s["rv"]["k"] == "Aggregate" and s["rv"].get("variant") == "Ok" for s in b["stmts"])
+    n_store = sum(1 for bi, b in enumerate(bl) if not b["cleanup"] and store_block(bi, b))
+    def stop(bi, b):
+        # a store, or a call that can only produce an error (the `?` after it has no way on)
+        t = b["term"]
+        return store_block(bi, b) or (t["k"] == "Call" and _always_err(F, t.get("resolved") or t.get("def")))
+    w = mirq.path_avoiding_to(mir, [0], stop, lambda bi, b: ok_block(bi, b) and not stop(bi, b))
+    return n_store, w
+
+
+def rule_A15(ctx):
+    F = ctx.F
+    r = RuleResult("A15", "a sub-expression step always hands its value on: every Ok path of the UpdateValue handler stores the step's value into the current input value")
+    fs = [f for f in F.fns.values() if f["crate"] == "garnish_lang_runtime" and f.get("name") == "update_value" and f["kind"] != "Closure"]
+    if not fs:
+        r.anchor_missing("update_value", "runtime fn update_value not found")
+        return r
+    f = fs[0]
+    n_store, w = a15_analyse(f, F)
+    r.examine((f["path"],), True, {"fn": f["path"], "stores_to_the_current_value": n_store, "ok_path_without_store": w is not None})
+    r.floor("stores through get_current_value_mut in update_value", n_store, 1)
+    if w is not None:
+        r.finding(f["path"], "value-not-handed-on", loc(f["mir"]["blocks"][w[-1]]["term"]), "update_value can return Ok without storing the step's value into the current input value (for some values - unit - the store is skipped): the next step still sees the previous `$`, its identifiers are looked up in that stale input and the host's resolve is never asked about a name that happens to be a key of it")
+    for g in F.fns_in("gfixture::round3::a15::"):
+        if g["kind"] == "Closure" or not g.get("name", "").startswith(("ctl_", "ok_")):
+            continue
+        ns, w2 = a15_analyse(g, F)
+        if g["name"].startswith("ctl_"):
+            r.control(g["name"], w2 is not None)
+        else:
+            r.neg_control(g["name"], ns >= 1 and w2 is None)
+    return r
+
+
+# ---------------------------------------------------------------------------------------------------------------------
+# G9  compaction fails only for the reviewed reasons.  optimize / clone_data must preserve every reachable value; the passes
+#     behind them may refuse (return an error they construct themselves) only where a reviewed entry says why - a corrupt
+#     cell, the iteration limit.  A new refusal (a 'cycle check' by address order, ...) turns legal data into a failure.
+def rule_G9(ctx):
+    import json, os
+    from .facts import VERIF
+    from .rules_store import _err_constructions
+    F = ctx.F
+    r = RuleResult("G9", "compaction refuses only for reviewed reasons: the errors the reachability / copy passes of BasicGarnishData construct themselves are the reviewed ones (corrupt cell, iteration limit, unmapped address), each at most as often as reviewed")
+    with open(os.path.join(VERIF, "allow", "compaction_errors.json")) as fh:
+        al = json.load(fh)
+    names = ("create_index_stack", "clone_index_stack", "optimize_data_block_and_retain", "lookup_in_data_slice", "lookup_in_data_slice_optional", "clone_data")
+    scope = [f for f in F.fns.values() if f["crate"] == "garnish_lang_simple_data" and "::basic::" in f["path"] and f.get("name") in names and f["kind"] != "Closure"]
+    # private helpers of the passes (one hop) belong to them
+    seen = set(f["path"] for f in scope)
+    for f in list(scope):
+        for d, _c in hirq.calls_in(f["hir"]):
+            g = F.fns.get(d)
+            if g is not None and g["crate"] == f["crate"] and "::basic::" in g["path"] and g["path"] not in seen and g["kind"] != "Closure" and g.get("vis") != "Public" and (
+                    g["span"].split(":")[0] == f["span"].split(":")[0]) and not (g.get("name") or "").startswith(("get_from_", "push_to_")):
+                seen.add(g["path"])
+                scope.append(dict(g, _owner=f.get("name")))
+    r.floor("compaction / clone pass functions", len([f for f in scope if "_owner" not in f]), 4)
+    totals = {}
+    where_of = {}
+    for f in scope:
+        owner = f.get("_owner") or f.get("name")
+        for label, where in _err_constructions(F, f):
+            totals.setdefault(owner, {}).setdefault(label, 0)
+            totals[owner][label] += 1
+            where_of.setdefault((owner, label), []).append(where)
+    for owner in sorted(set(f.get("_owner") or f.get("name") for f in scope)):
+        r.examine((owner,), True, {"pass": owner, "constructed_errors": totals.get(owner, {})})
+        for label, n_ in sorted(totals.get(owner, {}).items()):
+            allowed = al.get(owner, {}).get(label, {}).get("count", 0)
+            if n_ > allowed:
+                fpath = next(f["path"] for f in scope if (f.get("_owner") or f.get("name")) == owner)
+                r.finding(fpath, "refusal:%s:%s|n=%d" % (owner, label, n_), where_of[(owner, label)][0], "the %s pass constructs the error %s at %d site(s) (%s); %d reviewed%s: a further reason to refuse makes optimize / clone_data fail on data they must preserve (e.g. a 'cycle check' by address order rejects a list whose items were created after start_list)" % (
+                    owner, label, n_, ", ".join(where_of[(owner, label)]), allowed, (" (" + al[owner][label]["reason"] + ")") if label in al.get(owner, {}) else ""))
+    return r
